@@ -90,6 +90,7 @@ type Run struct {
 	pmu          sync.Mutex
 	disk         *DiskTracker
 	phase        string
+	wms          map[string]*wmState
 	maxDiscardTs uint64 // highest discard watermark any compaction used so far
 	compactions  int
 }
@@ -245,6 +246,49 @@ func (r *Run) onEvent(gid int64, kind string, a, b uint64, key, val []byte) {
 		if n > 0 {
 			r.probe("begin_while_commit_in_flight")
 		}
+	case "wm.begin":
+		r.mu.Lock()
+		w := r.wm(string(key))
+		w.open[a]++
+		w.begun[a] = true
+		r.mu.Unlock()
+	case "wm.done":
+		r.mu.Lock()
+		w := r.wm(string(key))
+		w.open[a]--
+		if w.open[a] <= 0 {
+			delete(w.open, a)
+			// all Begins of this index emitted so far are matched: from this prefix
+			// of the mark stream on, the index may be reported as done.
+			w.zeroSeen[a] = true
+		}
+		r.mu.Unlock()
+	case "wm.advance":
+		// C34: a watermark never reports an index as done while a begun index at
+		// or below it is pending. The process goroutine lags behind the callers,
+		// so the claim is about the prefix of marks it has consumed: an index in
+		// (old, new] that was ever begun must have reached "every Begin so far
+		// matched by a Done" at some earlier point. (A Begin of an index issued
+		// after that point re-begins an index the mark may already cover.)
+		r.mu.Lock()
+		w := r.wm(string(key))
+		var bad uint64
+		for idx := range w.begun {
+			if idx > a && idx <= b && !w.zeroSeen[idx] && (bad == 0 || idx < bad) {
+				bad = idx
+			}
+		}
+		for idx := range w.begun {
+			if idx <= b {
+				delete(w.begun, idx)
+				delete(w.zeroSeen, idx)
+			}
+		}
+		r.mu.Unlock()
+		r.probe("watermark_advanced")
+		if bad != 0 {
+			r.violate([]string{"C34"}, "watermark-advanced-past-pending", "watermark %s advanced from %d to %d while index %d was begun and never done", key, a, b, bad)
+		}
 	case "compact.discardTs":
 		r.mu.Lock()
 		if a > r.maxDiscardTs {
@@ -280,6 +324,21 @@ func (r *Run) onEvent(gid int64, kind string, a, b uint64, key, val []byte) {
 	case "flush.done":
 		r.probe("memtable_flushed")
 	}
+}
+
+type wmState struct {
+	open     map[uint64]int
+	begun    map[uint64]bool
+	zeroSeen map[uint64]bool
+}
+
+func (r *Run) wm(name string) *wmState {
+	w := r.wms[name]
+	if w == nil {
+		w = &wmState{open: map[uint64]int{}, begun: map[uint64]bool{}, zeroSeen: map[uint64]bool{}}
+		r.wms[name] = w
+	}
+	return w
 }
 
 func (r *Run) key(i int) []byte { return r.c.KeyBytes(i) }
@@ -448,6 +507,9 @@ func (r *Run) opGet(cl *clientState, idx int, op *Op) {
 		ts.reads[string(key)] = true
 	}
 	r.mu.Lock()
+	if nv := r.model.Newest(string(key), ts.readTs); nv != nil && !nv.Del && expired(nv.Exp, tnow) {
+		r.probe("expiry_crossed")
+	}
 	want := r.model.Read(string(key), ts.readTs, tnow)
 	if len(r.model.Commits) > ts.nCommitsAtBegin && r.c.Cfg.NumCompactors == 0 {
 		r.stats.NonTrivial = true
@@ -1018,7 +1080,7 @@ func executeWith(t *testing.T, c *Case, prof *Profile, keepHist bool, pre func(*
 		return
 	}
 	defer os.RemoveAll(dir)
-	r := &Run{c: c, prof: prof, dir: filepath.Join(dir, "d"), model: NewModel(), byGid: map[int64]*clientState{}, inFlight: map[uint64]bool{}, keepHist: keepHist}
+	r := &Run{c: c, prof: prof, dir: filepath.Join(dir, "d"), model: NewModel(), byGid: map[int64]*clientState{}, inFlight: map[uint64]bool{}, keepHist: keepHist, wms: map[string]*wmState{}}
 	r.vdir = r.dir
 	if c.Cfg.SeparateValueDir {
 		r.vdir = filepath.Join(dir, "v")
